@@ -1289,3 +1289,34 @@ package ice
 //@ func writeUvarints
 //@   loop 0 invariant[C04] isCHW(w) ==> cast(w, "*countHashWriter").n >= old(cast(w, "*countHashWriter").n)
 //@   ensures[C04] isCHW(w) ==> cast(w, "*countHashWriter").n >= old(cast(w, "*countHashWriter").n)
+//@
+//@ // ---------------------------------------------------------------------------
+//@ // C11 end to end: a countHashWriter's running CRC is the CRC-32 (seeded with wseed) of
+//@ // everything it has accepted. wseed is 0 at creation; persistFooter re-seeds its inner
+//@ // writer with the CRC of the data that precedes the footer.
+//@ ghostfield * wseed int
+//@ typeinv countHashWriter self.crc == crcUpd(wseed(self), out(self), 0, outlen(self))
+//@ func newCountHashWriter
+//@   ghostset wseed(result0) = 0
+//@   ensures[C11] wseed(result0) == 0
+//@ func (*countHashWriter).Write
+//@   requires[C11] c.crc == crcUpd(wseed(c), out(c), 0, outlen(c))
+//@   requires[C11] isCHW(c.w) ==> cast(c.w, "*countHashWriter").crc == crcUpd(wseed(c.w), out(c.w), 0, outlen(c.w))
+//@ func persistFooter
+//@   at store:countHashWriter.crc#0 ghostset wseed(w) = footer.crc
+//@   requires[C11] isCHW(writerIn) ==> cast(writerIn, "*countHashWriter").crc == crcUpd(wseed(writerIn), out(writerIn), 0, outlen(writerIn))
+//@ func persistFooter
+//@   ensures[C11] forall(r, !fresh(r) ==> wseed(r) == old(wseed(r)))
+//@ // Merger.WriteTo / mergeSegmentBasesWriter: the stream of the counting writer (which passes every
+//@ // byte on to the caller's writer) ends with the CRC-32 of everything before those four bytes
+//@ func mergeSegmentBasesWriter
+//@   at call:(*countHashWriter).Sum32#0 lemma[C11] result0 == crcUpd(0, out(cr), 0, outlen(cr)) && wseed(cr) == 0
+//@   at call:persistFooter#0 lemma[C11] result0 == nil ==> outlen(cr) >= 44 && crcUpd(0, out(cr), 0, outlen(cr) - 44) == footer.crc
+//@   at call:persistFooter#0 lemma[C11] result0 == nil ==> be32(out(cr), outlen(cr) - 4) == crcUpd(footer.crc, out(cr), outlen(cr) - 44, outlen(cr) - 4)
+//@   at call:persistFooter#0 lemma[C11] result0 == nil ==> crcUpd(crcUpd(0, out(cr), 0, outlen(cr) - 44), out(cr), outlen(cr) - 44, outlen(cr) - 4) == crcUpd(0, out(cr), 0, outlen(cr) - 4)
+//@   at call:persistFooter#0 lemma[C11] result0 == nil ==> be32(out(cr), outlen(cr) - 4) == crcUpd(0, out(cr), 0, outlen(cr) - 4)
+//@   at call:(*countHashWriter).Count#0 lemma[C11] result0 == outlen(cr)
+//@ // (restates the wrapped writer's own CRC invariant where the wrapped writer is one of ours)
+//@ typeinv countHashWriter isCHW(self.w) ==> cast(self.w, "*countHashWriter").crc == crcUpd(wseed(self.w), out(self.w), 0, outlen(self.w))
+//@ func newCountHashWriter
+//@   requires[C11] isCHW(w) ==> cast(w, "*countHashWriter").crc == crcUpd(wseed(w), out(w), 0, outlen(w))
